@@ -23,6 +23,8 @@ const FORWARDING_POINTER_MASK: usize = 0xffff_fffc;
 pub fn attempt_to_forward<VM: VMBinding>(object: ObjectReference) -> u8 {
     loop {
         let old_value = get_forwarding_status::<VM>(object);
+        #[cfg(feature = "mmtk_verif")]
+        crate::verif::gc::yp(crate::verif::gc::Site::AttemptToForward);
         if old_value != FORWARDING_NOT_TRIGGERED_YET
             || VM::VMObjectModel::LOCAL_FORWARDING_BITS_SPEC
                 .compare_exchange_metadata::<VM, u8>(
@@ -55,6 +57,8 @@ pub fn spin_and_get_forwarded_object<VM: VMBinding>(
 ) -> ObjectReference {
     let mut forwarding_bits = forwarding_bits;
     while forwarding_bits == BEING_FORWARDED {
+        #[cfg(feature = "mmtk_verif")]
+        crate::verif::gc::yp(crate::verif::gc::Site::SpinForwarded);
         forwarding_bits = get_forwarding_status::<VM>(object);
     }
 
@@ -99,6 +103,8 @@ pub fn forward_object<VM: VMBinding>(
     let new_object = VM::VMObjectModel::copy(object, semantics, copy_context);
     on_after_forwarding(new_object);
     if let Some(shift) = forwarding_bits_offset_in_forwarding_pointer::<VM>() {
+        #[cfg(feature = "mmtk_verif")]
+        crate::verif::gc::yp(crate::verif::gc::Site::ForwardObjectBeforeStore);
         VM::VMObjectModel::LOCAL_FORWARDING_POINTER_SPEC.store_atomic::<VM, usize>(
             object,
             new_object.to_raw_address().as_usize() | ((FORWARDED as usize) << shift),
@@ -107,6 +113,8 @@ pub fn forward_object<VM: VMBinding>(
         )
     } else {
         write_forwarding_pointer::<VM>(object, new_object);
+        #[cfg(feature = "mmtk_verif")]
+        crate::verif::gc::yp(crate::verif::gc::Site::ForwardObjectBeforeStore);
         VM::VMObjectModel::LOCAL_FORWARDING_BITS_SPEC.store_atomic::<VM, u8>(
             object,
             FORWARDED,
